@@ -616,6 +616,14 @@ def pair_menu():
         ("go-anydone", [("go", "f3", [("auxdone", "any", None, False)])]),
         ("go-upd", [("go", "f3", [("updated", "v", "me", None, False)])]),
         ("done-x", [("done", "recur", ["x"])]),
+        # ordinary (non-interrupting) verbs placed in the precur context: they must not interrupt evaluation
+        ("put-precur", [("put", "precur", 1, "v")]),
+        ("inc-precur", [("inc", "precur", "c", 1)]),
+        ("copy-precur", [("copy", "precur", "v", "w")]),
+        ("bid-precur", [("bid", "precur", "stop", ["z"], None)]),
+        ("done-precur", [("done", "precur", ["x"])]),
+        ("put-renter", [("put", "renter", 2, "w")]),
+        ("inc-rexit", [("inc", "rexit", "c", 1)]),
     ]
 
 
@@ -657,7 +665,7 @@ def fam_pairs(first_variants=(None, "f2")):
                         if first:
                             fm["first"] = first
                         yield ("pairs/%s@%d+%s@%d/first-%s" % (na, pa, nb, pb, first),
-                               dict(tick=0.125, inits=list(ENV_INITS) + [("v", 0), ("c", 0)], framers=[fm] + extra),
+                               dict(tick=0.125, inits=list(ENV_INITS) + [("v", 0), ("c", 0), ("w", 0)], framers=[fm] + extra),
                                dict(kind="pairs"))
 
 
